@@ -81,12 +81,48 @@ def gen_cases(rng, tier):
             ox = rng.randint(-sw + 1, w - 1)
             oy = rng.randint(-sh + 1, h - 1)
         cases.append(("nearest_map", [kind, sw, sh, ox, oy, rng.randrange(3), w, h]))
+    # kind 2: translation by (ox / 2, oy / 2); odd values put every pixel centre exactly on a source pixel boundary,
+    # where the binary32 chain must stay exact (sizes that are not powers of two have an inexact reciprocal)
+    for i in range(300 if q else 4000):
+        w, h = rng.choice([(24, 5), (33, 3), (70, 2), (40, 4), (rng.randint(1, 80), rng.randint(1, 6))])
+        sw, sh = rng.choice([(5, 3), (7, 4), (9, 5), (10, 9), (11, 3), (13, 6), (17, 2), (20, 20), (25, 3), (31, 7), (8, 8), (41, 3), (47, 2), (rng.randint(1, 64), rng.randint(1, 9))])
+        ox = rng.choice([1, -1, 3, rng.randint(-60, 60), rng.randint(-60, 60), rng.randint(-2000, 2000)])
+        oy = rng.choice([0, 1, -1, 2, rng.randint(-20, 20)])
+        cases.append(("nearest_map", [2, sw, sh, ox, oy, rng.randrange(3), w, h]))
     return cases
+
+
+def nearest_expected_half(args):
+    """kind 2: source coordinate of pixel centre c is c + 1/2 - ox/2; on an exact pixel boundary either neighbour is accepted
+    (the property says 'the source pixel containing the centre'; a boundary point belongs to both closed pixels)"""
+    kind, sw, sh, ox, oy, spread, w, h = args
+    def tile(i, n, sp):
+        if sp == 0:
+            return min(max(i, 0), n - 1)
+        if sp == 1:
+            m = i % (2 * n)
+            return m if m < n else 2 * n - 1 - m
+        return i % n
+    def cands(c, o, n):
+        num = 2 * c + 1 - o          # twice the coordinate
+        if num % 2 == 0:
+            k = num // 2
+            return {tile(k, n, spread), tile(k - 1, n, spread)}
+        return {tile(num // 2, n, spread)}
+    out = []
+    for r in range(h):
+        ys = cands(r, oy, sh)
+        for c in range(w):
+            xs = cands(c, ox, sw)
+            out.append({y * sw + x for y in ys for x in xs})
+    return out
 
 
 def nearest_expected(args):
     """the property itself: destination pixel (c, r) shows source pixel tile(c - ox), tile(r - oy)"""
     kind, sw, sh, ox, oy, spread, w, h = args
+    if kind == 2:
+        return nearest_expected_half(args)
     def tile(i, n, sp):
         if sp == 0:
             return min(max(i, 0), n - 1)
@@ -127,8 +163,8 @@ def oracle(suite, args, out):
         if len(o) != len(e):
             return "nearest_map returned %d pixels for a %dx%d destination" % (len(o), args[6], args[7])
         for i, (a, b) in enumerate(zip(o, e)):
-            if a != b:
-                return "destination pixel (%d,%d) shows source pixel %d where the mapped position is source pixel %d" % (i % args[6], i // args[6], a, b)
+            if (a not in b) if isinstance(b, set) else (a != b):
+                return "destination pixel (%d,%d) shows source pixel %d where the mapped position is source pixel %s" % (i % args[6], i // args[6], a, sorted(b) if isinstance(b, set) else b)
         return None
     if out.startswith(("PANIC", "CRASH", "HANG")):
         return "implementation did not return: " + out[:200]
